@@ -1,5 +1,5 @@
 """Per-property check definitions (stages, bounds per tier) and confirmation logic."""
-import json, os
+import hashlib, json, os
 import vlib
 from vlib import Broken, log
 import pretty
@@ -16,7 +16,11 @@ def prop(pid):
     return deco
 
 
-# ------------------------------------------------------------------ eval-shaped candidates
+def envhash(env):
+    return hashlib.sha1(json.dumps(env, sort_keys=True).encode()).hexdigest()[:8]
+
+
+# ====================================================================== eval-shaped candidates
 # A candidate of kind "eval" is (env, expr): the real evaluator's observation for
 # expr under env differs from what the specification defines.
 
@@ -37,7 +41,7 @@ def children(e):
             for i in range(len(e[k])):
                 refs.append((e[k], i))
     if e.get("op") == "rec":
-        for p in e.get("kv", []):
+        for p in e.get("kv") or []:
             refs.append((p, "val"))
     return refs
 
@@ -78,20 +82,19 @@ def literal_of(exp):
     return ERR_NODE
 
 
-def validate_eval_events(ctx, name, events):
-    """fresh-process re-execution + TLC re-evaluation of eval events; returns per event {idx: exp}"""
+def exec_and_validate(ctx, name, module, events):
+    """fresh-process re-execution of events + TLC re-validation; returns (bad entries by event index, executed events)"""
     d = ctx.dir(name)
     inp, outp = os.path.join(d, "in.ndjson"), os.path.join(d, "ev.ndjson")
-    vlib.write_ndjson(inp, events)
+    vlib.write_ndjson(inp, [{k: v for k, v in e.items() if k not in ("obs", "exp")} for e in events])
     vlib.harness(["exec", "-in", inp, "-out", outp])
-    res = vlib.tlc_validate(ctx, name, "Trace_Eval", [outp])
+    res = vlib.tlc_validate(ctx, name, module, [outp])
     execd = vlib.read_ndjson(outp)
-    per = [dict() for _ in events]
-    for _, bad in res:
-        for b in bad:
-            for it in b["items"]:
-                per[b["event"] - 1][it["idx"] - 1] = it["exp"]
-    return per, execd
+    bad = {}
+    for _, entries in res:
+        for b in entries:
+            bad[b["event"] - 1] = b
+    return bad, execd
 
 
 def confirm_eval(ctx, cands):
@@ -110,9 +113,10 @@ def confirm_eval(ctx, cands):
             po = postorder(it["expr"])
             posts.append(po)
             events.append({"op": "eval", "env": it["env"], "exprs": [n for n, _ in po]})
-        per, execd = validate_eval_events(ctx, "confirm%d" % rnd, events)
+        badev, execd = exec_and_validate(ctx, "confirm.eval%d" % rnd, "Trace_Eval", events)
         nxt = []
-        for it, po, bad, ev in zip(items, posts, per, execd):
+        for k, (it, po, ev) in enumerate(zip(items, posts, execd)):
+            bad = {x["idx"] - 1: x["exp"] for x in badev.get(k, {}).get("items", [])}
             root = len(po) - 1
             if root not in bad:
                 if it["first"]:
@@ -122,10 +126,13 @@ def confirm_eval(ctx, cands):
             for i in minimal:
                 node = po[i][0]
                 obs = ev["obs"][i]
+                same_val = pretty.so(obs) == pretty.so(bad[i])
                 descr = "eval %s => observed %s%s, specified %s" % (
-                    pretty.se(node), pretty.so(obs),
-                    (" az=" + obs["az"]) if obs.get("az") not in (None, "n/a") and pretty.so(obs) == pretty.so(bad[i]) else "",
-                    pretty.so(bad[i]))
+                    pretty.se(node), pretty.so(obs).strip(),
+                    (" az=" + obs["az"]) if same_val and obs.get("az") not in (None, "n/a") else "",
+                    pretty.so(bad[i]).strip())
+                if uses_env(node):
+                    descr += " [env %s]" % envhash(it["env"])
                 confirmed.append(dict(kind="eval", stage=it["stage"], descr=descr, exp=bad[i], obs=obs,
                                       case={"op": "eval", "env": it["env"], "exprs": [node]}))
             if root not in minimal:
@@ -137,28 +144,22 @@ def confirm_eval(ctx, cands):
     return confirmed
 
 
-def eval_candidates_from_diffs(ctx):
-    """turn the generic m2 candidates of eval cases into (env, expr) candidates"""
-    out = []
-    for c in ctx.candidates:
-        if c["kind"] == "m2" and c["case"].get("op") == "eval":
-            raise Broken("unexpected")
-    return out
+def uses_env(e):
+    if e.get("op") in ("var", "in", "isIn", "has", "access", "hasTag", "getTag"):
+        return True
+    return any(uses_env(c[k]) for c, k in children(e))
 
 
 def add_eval_m2(ctx, name, module, extra, cfg=GEN_CFG, min_cases=1, timeout=3600):
     before = len(ctx.candidates)
     st = vlib.generate_and_replay(ctx, name, module, cfg, extra, min_cases=min_cases, timeout=timeout)
-    new, rest = ctx.candidates[before:], ctx.candidates[:before]
-    ctx.candidates = rest
-    diffs = vlib.read_ndjson(os.path.join(ctx.work, name + ".gen", "diffs.ndjson"))
-    for dd in diffs:
+    ctx.candidates = ctx.candidates[:before]
+    for dd in vlib.read_ndjson(os.path.join(ctx.work, name + ".gen", "diffs.ndjson")):
         c = dd["case"]
         for i in dd["bad"]:
             if i < 0:
                 raise Broken("%s: observation list has the wrong length" % name)
             ctx.candidates.append(dict(kind="eval", stage=name, env=c["env"], expr=c["exprs"][i]))
-    ctx.cov["evaluations"] += sum(len(c.get("exprs", [])) for c in [])
     return st
 
 
@@ -176,43 +177,187 @@ def add_eval_m3(ctx, name, n, depth):
     return st
 
 
+# ====================================================================== event-shaped candidates
+# A candidate of kind K carries a whole event (op + inputs).  Confirmation re-executes
+# it in a fresh process and lets TLC re-validate it with the area's trace module; a
+# per-kind `shrink` proposes smaller events (e.g. one policy at a time) and the smallest
+# ones that still fail are reported.
+
+KINDS = {}      # kind -> dict(module=..., shrink=fn(event)->[events], describe=fn(event, obs, entry)->str)
+
+
+def add_m2(ctx, kind, name, module, extra, cfg=GEN_CFG, min_cases=1, timeout=3600, workers=1, args=()):
+    before = len(ctx.candidates)
+    st = vlib.generate_and_replay(ctx, name, module, cfg, extra, min_cases=min_cases, timeout=timeout, workers=workers, args=args)
+    new = ctx.candidates[before:]
+    ctx.candidates = ctx.candidates[:before]
+    for c in new:
+        ctx.candidates.append(dict(kind=kind, stage=name, event=c["case"]))
+    return st
+
+
+def add_m3(ctx, kind, name, area, n, params=None, shards=None):
+    module = KINDS[kind]["module"]
+    files, st = vlib.drive(ctx, name, area, n, params=params, shards=shards)
+    res = vlib.tlc_validate(ctx, name, module, files)
+    for f, bad in res:
+        if not bad:
+            continue
+        events = vlib.read_ndjson(f)
+        for b in bad:
+            ctx.candidates.append(dict(kind=kind, stage=name, event=events[b["event"] - 1]))
+    return st
+
+
+def confirm_events(ctx, kind, cands):
+    spec = KINDS[kind]
+    events, seen = [], set()
+    for c in cands:
+        ev = {k: v for k, v in c["event"].items() if k not in ("obs", "exp")}
+        key = json.dumps(ev, sort_keys=True)
+        if key not in seen:
+            seen.add(key)
+            events.append((ev, c.get("stage")))
+    bad, execd = exec_and_validate(ctx, "confirm.%s" % kind, spec["module"], [e for e, _ in events])
+    for k, (ev, _) in enumerate(events):
+        if k not in bad:
+            raise Broken("candidate (%s) did not reproduce on re-execution: %s" % (kind, json.dumps(ev)[:300]))
+    confirmed = []
+    small, owner = [], []
+    if spec.get("shrink"):
+        for k, (ev, _) in enumerate(events):
+            for s in spec["shrink"](ev):
+                small.append(s)
+                owner.append(k)
+    explained = set()
+    if small:
+        sbad, sexec = exec_and_validate(ctx, "shrink.%s" % kind, spec["module"], small)
+        for j, s in enumerate(small):
+            if j in sbad:
+                explained.add(owner[j])
+                confirmed.append(dict(kind=kind, stage=events[owner[j]][1], case=s, obs=sexec[j].get("obs"), exp=sbad[j].get("exp"),
+                                      descr=spec["describe"](s, sexec[j].get("obs"), sbad[j])))
+    for k, (ev, stage) in enumerate(events):
+        if k not in explained:
+            confirmed.append(dict(kind=kind, stage=stage, case=ev, obs=execd[k].get("obs"), exp=bad[k].get("exp"),
+                                  descr=spec["describe"](ev, execd[k].get("obs"), bad[k])))
+    return confirmed
+
+
+def confirm_all(ctx, cands):
+    out = []
+    kinds = []
+    for c in cands:
+        if c["kind"] not in kinds:
+            kinds.append(c["kind"])
+    for k in kinds:
+        sub = [c for c in cands if c["kind"] == k]
+        out += confirm_eval(ctx, sub) if k == "eval" else confirm_events(ctx, k, sub)
+    return out
+
+
+# ---------------------------------------------------------------------- authz events
+
+def shrink_authz(ev):
+    pols = ev.get("policies") or []
+    if len(pols) <= 1:
+        return []
+    return [dict(ev, policies=[p], order=[p["id"]]) for p in pols]
+
+
+def describe_authz(ev, obs, entry):
+    pols = ev.get("policies") or []
+    ptxt = "; ".join("%s: %s" % (p["id"], pretty.sp(p["policy"])) for p in pols)
+    if not isinstance(obs, dict) or "A" not in obs:
+        o = "panic/invalid: %s" % json.dumps(obs)[:200]
+    else:
+        o = "set{%s} iterator{%s} document{%s} positions=%s" % (pretty.sres(obs["A"]), pretty.sres(obs["B"]), pretty.sres(obs["C"]), obs.get("pos"))
+    return "authz [%s] %s [env %s] => observed %s, specified %s" % (ptxt, pretty.sreq(ev["env"]), envhash(ev["env"]), o,
+                                                                  pretty.sres(entry.get("exp")))
+
+
+KINDS["authz"] = dict(module="Trace_Authz", shrink=shrink_authz, describe=describe_authz)
+
+
+# ====================================================================== properties
+
 @prop("C01")
 def run_C01(ctx):
     ctx.rule = ("M2: TLC enumerates the operator x boundary-operand tables (MC_EvalTables: every row is one environment "
                 "and a sequence of expressions) and computes the specified result; every expression is executed by the "
                 "real x/exp/eval.Eval and, wrapped in a one-policy set, by cedar.Authorize; compared on value-or-failure. "
                 "M3: seeded random expression trees over random stores are evaluated by the real code and every event is "
-                "validated by TLC against CedarEval (Trace_Eval). distinct = distinct rows / events by content.")
+                "validated by TLC against CedarEval (Trace_Eval). evaluations = rows + events (each carries several "
+                "expressions); distinct = distinct rows / events by content.")
     ctx.assumptions = ["the TLA+ evaluator (CedarEval/CedarExt/Num64) is a transcription of the Cedar language documents",
                        "only value-vs-failure and the value are compared, not error classes or messages",
                        "wire codec harness/cwf (self-tested at setup) is trusted"]
     add_eval_m2(ctx, "tables", "MC_EvalTables", ["mc/MC_EvalTables.tla"], min_cases=1000)
     if ctx.quick:
-        add_eval_m3(ctx, "random", 24000, 5)
+        add_eval_m3(ctx, "random", 16000, 5)
     else:
-        add_eval_m3(ctx, "random", 480000, 7)
-    return vlib.finish(ctx, confirm_eval)
+        vlib.LIGHT_JVM = False
+        add_eval_m3(ctx, "random", 400000, 7)
+    return vlib.finish(ctx, confirm_all)
 
 
-# ------------------------------------------------------------------ replay of a stored violation
+def mc_cfg(invariants=(), properties=(), constants=None, spec=None):
+    s = ("SPECIFICATION %s\n" % spec) if spec else "INIT Init\nNEXT Next\n"
+    for k, v in (constants or {}).items():
+        s += "CONSTANT %s = %s\n" % (k, v)
+    for i in invariants:
+        s += "INVARIANT %s\n" % i
+    for p in properties:
+        s += "PROPERTY %s\n" % p
+    s += "CHECK_DEADLOCK FALSE\n"      # terminal states are expected
+    return s
+
+
+@prop("C02")
+def run_C02(ctx):
+    ctx.rule = ("M1: MC_Authz explores the authorizer loop for every multiset of policy classes {permit,forbid}x{sat,unsat,err} "
+                "up to MaxN policies in every iteration order (invariants Correct, Collected, Statement; action property "
+                "Monotone; liveness Terminates); MC_PolicyClauses checks clause sequencing against the desugared conjunction. "
+                "M2: MC_AuthzGen emits every terminal behaviour (concrete policies per class, the iteration order taken, the "
+                "specified decision/reasons/errors); the harness authorizes through a PolicySet, an order-fixing PolicyIterator "
+                "and one parsed document (positions compared with offsets/lines/columns computed from the document layout). "
+                "M3: random policy sets over random requests/stores, validated by Trace_Authz. distinct = distinct behaviours / events.")
+    ctx.assumptions = ["policy outcomes come from the TLA+ evaluator (see C01)", "error message text is not predicted",
+                       "document positions are computed by the harness from the layout it generated itself"]
+    q = ctx.quick
+    vlib.tlc_check(ctx, "m1.loop", "MC_Authz",
+                   mc_cfg(["Correct", "Collected", "Statement"], ["Monotone", "Terminates"], {"MaxN": 4 if q else 5}, spec="Spec"),
+                   ["mc/MC_Authz.tla"])
+    vlib.tlc_check(ctx, "m1.clauses", "MC_PolicyClauses",
+                   mc_cfg(["Agree", "FirstDecides"], constants={"MaxClauses": 2 if q else 3}), ["mc/MC_PolicyClauses.tla"])
+    add_m2(ctx, "authz", "behaviours", "MC_AuthzGen", ["mc/MC_AuthzGen.tla"],
+           cfg=GEN_CFG + "INVARIANT Correct\nCONSTANT MaxN = %d\n" % (3 if q else 4), min_cases=100)
+    add_m3(ctx, "authz", "random", "authz", 1500 if q else 40000)
+    return vlib.finish(ctx, confirm_all)
+
+
+# ====================================================================== replay of a stored violation
 
 def replay(ctx, path):
     r = json.load(open(path))
     kind = r.get("kind")
+    c = r["case"]
     if kind == "eval":
-        c = r["case"]
-        ctx.candidates = [dict(kind="eval", stage="replay", env=c["env"], expr=e) for e in c["exprs"]]
-        try:
-            confirmed = confirm_eval(ctx, ctx.candidates)
-        except Broken as e:
-            if "did not reproduce" in str(e):
-                print("replay: not reproduced on this tree")
-                ctx.cleanup()
-                return 0
-            raise
-        for c in confirmed:
-            print("VIOLATION property=%s replay=%s" % (r["property"], path))
-            log("  " + c["descr"][:400])
-        ctx.cleanup()
-        return 1 if confirmed else 0
-    raise Broken("unknown replay kind %r" % kind)
+        cands = [dict(kind="eval", stage="replay", env=c["env"], expr=e) for e in c["exprs"]]
+    elif kind in KINDS:
+        cands = [dict(kind=kind, stage="replay", event=c)]
+    else:
+        raise Broken("unknown replay kind %r" % kind)
+    try:
+        confirmed = confirm_all(ctx, cands)
+    except Broken as e:
+        if "did not reproduce" in str(e):
+            print("replay: not reproduced on this tree")
+            ctx.cleanup()
+            return 0
+        raise
+    for cc in confirmed:
+        print("VIOLATION property=%s replay=%s" % (r["property"], path))
+        log("  " + cc["descr"][:400])
+    ctx.cleanup()
+    return 1 if confirmed else 0
